@@ -156,6 +156,43 @@ CHECKS["C17"] = (
     "DESIGN.md section 3, C17",
 )
 
+CHECKS["C08"] = (
+    "exploration",
+    "exhaustive CLI option product with directory snapshots and input-mutation influence closure",
+    "All 2 304 points of the option product (4 languages, 4 support modes, pod flag, namespace types, 3 template sources, extension, "
+    "stem, 3 namespace sets, absolute/relative path spelling) are run through the real nnvg entry point in a sandbox; where generation "
+    "succeeds the --list-outputs set is compared with the files the real run creates, the four no-write modes are checked against a full "
+    "snapshot (hash, mode, size, mtime, directories) with the outdir absent and populated, and every DSDL, template and support file is "
+    "mutated and regenerated: any file that changes an output byte must be named by --list-inputs. Quick: 84-point core + 1/16 slice.",
+    "Three fixed small namespace sets; built-in templates are mutated through a harness wrapper of the loader, never on disk; clock fixed; "
+    "one recorded finding (lookup DSDL files not listed) in known_findings.json.",
+    "DESIGN.md section 3, C08",
+)
+CHECKS["C12"] = (
+    "model_checking",
+    "explicit-state BFS over output-directory snapshots with real nnvg runs as transitions (capability-dropped workers)",
+    "States are canonical snapshots (path -> sha256, mode) of the output directory; every transition is a real nunavut.cli.main() run in a "
+    "forked child without CAP_DAC_OVERRIDE so that uid 0 honours 0o444. The 108-event alphabet (--file-mode, --no-overwrite, "
+    "--omit-serialization-support, --generate-support, line post-processors) runs on targets c and py plus 36 support-only events on cpp "
+    "with a plain support resource, from 4 pre-populated initial states; the reachable graph closes at depth 3 (783 states, 64 188 "
+    "transitions in thorough), so every history over the alphabet is covered. Every transition is checked against the clean-run bytes, "
+    "the requested mode, untouched bystanders and the --no-overwrite contract.",
+    "Clock frozen; in-process CLI (an escaping exception counts as a reported failure); two-type namespace, umask 022; read-only "
+    "directories and symlinks out of scope; quick explores depth 2 over a 24-event core + seed slice.",
+    "DESIGN.md section 3, C12",
+)
+CHECKS["C20"] = (
+    "exploration",
+    "bounded-exhaustive doc-string x type-graph generation judged by a strict HTML parser, base-page comparison and link resolution",
+    "Every string of <=3 tokens over a 16-token HTML-hostile alphabet is placed at 7 doc-comment positions, 21 strings at every doc slot "
+    "of 10 type graphs, plus 198 link graphs, 58 name shapes and 20 constant expressions; every case is generated by the real html target. "
+    "Every page is judged for strict well-formedness, for markup identity with a plain-word base page plus exact text delivery, and every "
+    "relative href is resolved against the generated tree (file exists and contains the id). Thorough: 31 655 namespaces, 79 646 pages.",
+    "PyDSDL 1.25 and CPython's html.parser are trusted; duplicate ids are a statistic (not demanded by the statement); server-absolute and "
+    "external hrefs are counted, not judged.",
+    "DESIGN.md section 3, C20",
+)
+
 ALL = [f"C{i:02d}" for i in range(1, 21)]
 
 
